@@ -209,6 +209,24 @@ func checkC08(c *Check) {
 						}
 						return false, false
 					}, true)
+					// … or slices.Contains(httpMethods, m) / slices.Index(httpMethods, m) >= 0
+					isTable := func(v ssa.Value) bool {
+						ld, ok := strip(v).(*ssa.UnOp)
+						if !ok {
+							return false
+						}
+						g, ok := ld.X.(*ssa.Global)
+						return ok && g.Name() == "httpMethods"
+					}
+					isContains := func(v ssa.Value) bool {
+						cl := asCall(v)
+						return cl != nil && strings.HasPrefix(callName(&cl.Call), "slices.Contains") && len(cl.Call.Args) == 2 && isTable(cl.Call.Args[0])
+					}
+					isIndexOf := func(v ssa.Value) bool {
+						cl := asCall(v)
+						return cl != nil && strings.HasPrefix(callName(&cl.Call), "slices.Index") && len(cl.Call.Args) == 2 && isTable(cl.Call.Args[0])
+					}
+					eq = union(eq, edgesWhere(ar, cBool(isContains), true), edgesWhere(ar, cCmp(token.GEQ, isIndexOf, vConstInt(0)), true))
 					eq = union(eq, flagTrueEdges(ar, eq))
 					if ok2, _ := guardedBy(ar, eq, isInstr(al)); !ok2 || len(eq) == 0 {
 						okProv, why = false, "a single-method selection is built without comparing with the httpMethods table"
